@@ -43,25 +43,29 @@ class C42(Prop):
     props_file = "Props/C42.v"
     preamble = ("From Coq Require Import List ZArith QArith.\nImport ListNotations.\n"
                 "From PP Require Import Model.C42.\n")
-    n_cases = (400, 12000)
+    n_cases = (400, 8000)
     design_ref = "DESIGN.md §5 C42"
     level_text = (
         "Coq theorems over the reals (any number of phases, lists of arbitrary length) about the "
         "R-instance of one polymorphic transcription of compute_saturations / "
         "chainrule_fractional_derivatives / normalize_rows: for fractions on the simplex and "
         "positive densities the closed form s_j = (y_j/rho_j)/sum_k(y_k/rho_k) is non-negative, "
-        "sums to one and reproduces y as density-weighted saturation ratios; it solves the linear "
-        "system the code assembles (matrix and right-hand side transcribed), and EVERY solution of "
-        "that system equals it (so the system is uniquely solvable); the two-phase formula of the "
-        "code equals the closed form; every entry of the matrix the chain rule applies is the "
+        "sums to one and reproduces y as density-weighted saturation ratios; it solves, row by "
+        "row, the linear system the code assembles (matrix and right-hand side transcribed; "
+        "C42_n_phase_partial: uniqueness of that solution is not proved); the two-phase formula "
+        "of the code equals the closed form and the whole two-phase call (saturation tests, "
+        "final assertion) returns it; every entry of the matrix the chain rule applies is the "
         "partial derivative of the normalisation x_i/sum(x) (Coquelicot is_derive) and the code "
         "returns gradient x Jacobian; normalised rows sum to one. The Q-instance of the same "
         "definitions is executed inside Coq against the real code on every run (2-5 phases, "
         "vanishing and saturated phases, error inputs), outputs compared within 1e-9.")
     level_note = (
-        "Not proved: that np.linalg.solve returns a solution of the system it is given (section "
-        "hypothesis of C42_solve_output_is_closed_form; exercised by the tie with exact "
-        "Gauss-Jordan elimination as stand-in); floating-point rounding; the multivariate chain "
+        "Not proved: non-singularity of the assembled n-phase system and that np.linalg.solve "
+        "returns its solution (the tie executes the model with exact Gauss-Jordan elimination as "
+        "stand-in AND compares the code's output with the closed form inside Coq on every "
+        "simplex case); the saturated-phase shortcut (y_j >= 1-eps gives the indicator vector, "
+        "equal to the closed form only when y_j = 1 exactly; deviation O(eps)) is covered by "
+        "tie and oracle only; floating-point rounding; the multivariate chain "
         "rule of calculus itself for an arbitrary differentiable outer function (C42_chainrule is "
         "stated for the Jacobian entries and for the vector-matrix product the code forms). The "
         "theorems are about the R-instance, the tie executes the Q-instance of the same "
@@ -77,7 +81,7 @@ class C42(Prop):
             "normalised); matrices with positive dyadic rows for normalize_rows; non-trivial = a "
             "saturation case with >= 3 present phases (linear solve) or a chain-rule case with "
             ">= 2 components; distinct by (case, output)")
-    trusted = ["np.linalg.solve returns a solution of the (uniquely solvable) system",
+    trusted = ["np.linalg.solve returns the solution of the assembled system (non-singularity not proved)",
                "the Q- and R-instances of the polymorphic model behave alike",
                "outputs compared with |impl-model| <= 1e-9(1+|model|) inside Coq"]
     assumptions = ["densities > 0; fractions >= 0 summing to one; eps = 1e-10 (default)"]
